@@ -18,9 +18,9 @@ func init() {
 }
 
 type c03Case struct {
-	Hex   string `json:"hex"`             // original encoding
-	Start int    `json:"start_bit"`       // first flipped bit
-	Len   int    `json:"burst_len"`       // burst length in bits (1 = single flip)
+	Hex   string `json:"hex"`              // original encoding
+	Start int    `json:"start_bit"`        // first flipped bit
+	Len   int    `json:"burst_len"`        // burst length in bits (1 = single flip)
 	Pat   uint64 `json:"interior_pattern"` // bit i (1<=i<=Len-2) of the burst flipped iff bit i-1 set
 }
 
